@@ -172,7 +172,7 @@ func (s *subscriber) run(t *Task, r *realRes) {
 	s.pullInvoked = t.W.Step()
 	s.open(r)
 	s.pullReturn = t.W.Step()
-	if s.lag > 0 {
+	if s.lag > 0 && !s.lagEvery {
 		t.Sleep(s.lag) // a slow consumer: does not come for its first event before everybody else is at rest or blocked
 	}
 	for {
